@@ -45,7 +45,7 @@ func init() {
 func genC01(r *Rand, tier string, i int) *h.Scenario {
 	p := DefaultProfile("C01")
 	p.MaxBars = 6
-	p.PQueueAfter = 0 // C17 owns queued bars
+	p.PQueueAfter = 0.12 // successors created before their predecessor finishes (late ones are finding F4b, owned by C17)
 	if tier == "thorough" {
 		p.MaxBars = 8
 		p.MaxClients = 4
@@ -237,6 +237,13 @@ func genC16(r *Rand, tier string, i int) *h.Scenario {
 		op := h.Op{K: []int{h.OpCancel, h.OpShutdown}[r.Intn(2)]}
 		pos := r.Intn(len(sc.Main) + 1)
 		sc.Main = append(sc.Main[:pos:pos], append([]h.Op{op}, sc.Main[pos:]...)...)
+	} else if r.Bool(0.3) && len(sc.Bars) > 0 {
+		// error path: some render fault ends the container
+		site := []int{h.FaultFill, h.FaultFill, h.FaultExt, h.FaultOutWrite, h.FaultTermSize}[r.Intn(5)]
+		sc.Faults = []h.Fault{{Site: site, Bar: r.Intn(len(sc.Bars)), K: r.Range(1, 6)}}
+		if site != h.FaultFill && site != h.FaultExt {
+			sc.Faults[0].Bar = 0
+		}
 	}
 	return sc
 }
